@@ -29,7 +29,24 @@ def main(argv=None):
     prop = args.prop
     mod = importlib.import_module(f"vf.props.{prop}")
     if args.replay:
-        return mod.replay(args.replay)
+        # re-run a saved counterexample against the CURRENT real torch build of /repo
+        with open(args.replay) as f:
+            saved = json.load(f)
+        rp = saved["request"]
+        resp = core.torch_run([rp])[0]
+        ok, text = mod.confirm(rp, resp)
+        print(f"[{prop}/replay] obligation: {saved.get('obligation')}")
+        print(f"[{prop}/replay] real run: {text}")
+        if ok:
+            sig = mod.signature({"obligation": saved.get("obligation")}, rp, resp, text)
+            k = core.match_known(prop, sig)
+            if k is not None:
+                print(f"KNOWN-FINDING: property={prop} {k['summary']}")
+                return 0
+            print(f"VIOLATION property={prop} replay={args.replay}")
+            return 1
+        print(f"[{prop}/replay] the saved counterexample does not reproduce on the current tree")
+        return 0
     plan = mod.plan(args.tier, seed)
     jobs = plan["jobs"]
     if args.only:
